@@ -16,9 +16,9 @@ type lfsrShape struct {
 	fn       *ssa.Function
 	state    *ssa.Phi
 	init     uint64
-	topShift int64   // K: top = c >> K
-	mask     uint64  // M: c & M
-	shift    int64   // << 5
+	topShift int64  // K: top = c >> K
+	mask     uint64 // M: c & M
+	shift    int64  // << 5
 	taps     map[int]uint64
 	finalXor uint64
 	fullLoop bool
@@ -591,8 +591,9 @@ func c03argument(p *Program, r *Report, name string, g *polyGuard, R *ssa.Functi
 }
 
 // prefixExpansionShape recognises the two specified expansions:
-//   CashAddr: [c & 31 for c in prefix] ‖ [0]
-//   BIP173:   [c >> 5 for c in hrp] ‖ [0] ‖ [c & 31 for c in hrp]
+//
+//	CashAddr: [c & 31 for c in prefix] ‖ [0]
+//	BIP173:   [c >> 5 for c in hrp] ‖ [0] ‖ [c & 31 for c in hrp]
 func prefixExpansionShape(fn *ssa.Function) (bool, string) {
 	if len(fn.Params) != 1 {
 		return false, "expansion does not take one string"
